@@ -37,7 +37,7 @@ def store_cfg(sub, memcap, compactn, comps, flags=None):
     open(os.path.join(sub, "StoreT_run.cfg"), "w").write(txt)
 
 
-def run_store(rep, work, d, exe, prop, tier, label, idx, n, memcap=1, compactn=2, comps="vtm", steps=24, density=0.5, images=0.0, damage=False, seed=0,
+def run_store(rep, work, d, exe, prop, tier, label, idx, n, memcap=1, compactn=2, comps="vtm", steps=24, density=0.5, images=0.0, damage=False, seed=0, vec="flat",
               allow=("C08-D3-compaction-drops-sources", "C08-D1m-shared-templates")):
     """Runs the store driver, validates the hook-level trace against Store.tla (conformance, exact result sets, explanation ghosts)
     and judges the client-level property monitors (StoreP).  Returns the list of trace events."""
@@ -45,7 +45,7 @@ def run_store(rep, work, d, exe, prop, tier, label, idx, n, memcap=1, compactn=2
     C.stage_dir(d, sub)
     trace = os.path.join(sub, "trace.ndjson")
     args = ["store", "-n", n, "-seed", C.seed() + seed, "-out", trace, "-memcap", memcap, "-compactn", compactn, "-comps", comps,
-            "-steps", steps, "-density", density, "-images", images]
+            "-steps", steps, "-density", density, "-images", images, "-vec", vec]
     if damage:
         args.append("-damage")
     p = C.run_harness(exe, args, timeout=3000)
